@@ -132,6 +132,24 @@ SPEC += [
     ('!=|(Any, Any)|ka.functions.<lambda:register_function(lambda x, y: 1, \\"!=\\", (Any, Any))>', ".const 1", "rfl"),
 ]
 
+# closures over Python builtins; ka_sqrt and strict_pow (under NumSem)
+for op in ["<", "<=", "==", "!=", ">", ">="]:
+    pyop = {"<": "lt", "<=": "le", "==": "eq", "!=": "ne", ">": "gt", ">=": "ge"}[op]
+    SPEC.append(("%s|(Number, Number)|ka.functions.intify.<locals>.f_new[_operator.%s]" % (op, pyop), '.cmp "%s"' % op,
+                 'intify_agree rec "%s" _ _' % op))
+for nm, py, fn in [("+", "_operator.pos", "pos"), ("-", "_operator.neg", "neg"), ("abs", "builtins.abs", "abs"), ("floor", "math.floor", "floor"),
+                   ("ceil", "math.ceil", "ceil"), ("round", "builtins.round", "round"), ("int", "builtins.int", "toInt"),
+                   ("float", "builtins.float", "toFloat"), ("sin", "math.sin", "sin"), ("cos", "math.cos", "cos"), ("tan", "math.tan", "tan")]:
+    SPEC.append(("%s|(Quantity)|ka.functions.register_numeric_function.<locals>.quantity_function[%s]" % (nm, py), ".qfn .%s" % fn,
+                 "quantity_function_builtin_agree rec .%s _ _" % fn))
+SPEC += [
+    ("sqrt|(Number)|ka.functions.ka_sqrt", ".fn1 .sqrt", "ka_sqrt_agree h _", None, "NumSem"),
+    ("sqrt|(Quantity)|ka.functions.register_numeric_function.<locals>.quantity_function[ka.functions.ka_sqrt]", ".qfn .sqrt",
+     "quantity_function_sqrt_agree h _ _", None, "NumSem"),
+    ("^|(Number, Number)|ka.functions.strict_pow", ".pow", "strict_pow_agree h _ _ (hP _ _ rfl)",
+     "fun args => ∀ x y : Num, args = [.num x, .num y] → hugePow x y = false", "NumSem"),
+]
+
 HOLDS = {".num": ("holds_num", "⟨n%d, rfl⟩"), ".intv": ("holds_intv", "⟨a%d, b%d, rfl⟩"), ".arr": ("holds_arr", "⟨xs%d, rfl⟩"),
          ".qty": ("holds_qty", "⟨m%d, d%d, rfl⟩"), ".int": ("holds_int", "⟨k%d, rfl⟩"), ".any": None}
 
@@ -160,11 +178,15 @@ open KaVerif.Eval KaVerif.PyRt KaVerif.Bodies KaVerif.Gen.Bodies
 
 /-- The body translated from the Python source that is registered under the implementation descriptor `desc` and the
     hand-written model body under the same descriptor agree on every argument list the registered signature admits. -/
-def Bodies.AgreesOn (desc : String) (P : List Val → Prop) : Prop :=
+def Bodies.AgreesUnder (H : Disp → Prop) (desc : String) (P : List Val → Prop) : Prop :=
   ∃ (g : Body) (code : BodyCode) (sh : List Shape) (va : Option Shape),
     Gen.Bodies.bodiesTable.lookup desc = some g ∧ implTable.lookup desc = some code ∧
     Gen.Bodies.bodiesShapes.lookup desc = some (sh, va) ∧
-    ∀ rec : Disp, NumDisp rec → ∀ args : List Val, wellTyped sh va args = true → P args → g rec args = code.run rec args
+    ∀ rec : Disp, H rec → ∀ args : List Val, wellTyped sh va args = true → P args → g rec args = code.run rec args
+
+/-- … for every dispatcher that answers the bodies' calls on plain numbers with a number or an error (`NumDisp`), on the
+    well-typed argument lists that satisfy the side condition `P` (a size bound of the model, where there is one) -/
+def Bodies.AgreesOn (desc : String) (P : List Val → Prop) : Prop := Bodies.AgreesUnder NumDisp desc P
 
 /-- agreement on every well-typed argument list (no side condition) -/
 def Bodies.Agrees (desc : String) : Prop := Bodies.AgreesOn desc (fun _ => True)
@@ -174,10 +196,10 @@ theorem Bodies.bodiesTable_nodup : (Gen.Bodies.bodiesTable.map (·.1)).Nodup := 
 theorem Bodies.bodiesShapes_nodup : (Gen.Bodies.bodiesShapes.map (·.1)).Nodup := by simp [Gen.Bodies.bodiesShapes]
 theorem Bodies.implTable_nodup : (implTable.map (·.1)).Nodup := by simp [implTable]
 
-theorem Bodies.agrees_intro {desc : String} {P : List Val → Prop} (g : Body) (code : BodyCode) (sh : List Shape) (va : Option Shape)
+theorem Bodies.agrees_intro {H : Disp → Prop} {desc : String} {P : List Val → Prop} (g : Body) (code : BodyCode) (sh : List Shape) (va : Option Shape)
     (h1 : (desc, g) ∈ Gen.Bodies.bodiesTable) (h2 : (desc, code) ∈ implTable) (h3 : (desc, sh, va) ∈ Gen.Bodies.bodiesShapes)
-    (h4 : ∀ rec : Disp, NumDisp rec → ∀ args : List Val, wellTyped sh va args = true → P args → g rec args = code.run rec args) :
-    Bodies.AgreesOn desc P :=
+    (h4 : ∀ rec : Disp, H rec → ∀ args : List Val, wellTyped sh va args = true → P args → g rec args = code.run rec args) :
+    Bodies.AgreesUnder H desc P :=
   ⟨g, code, sh, va, lookup_of_mem_nodup _ _ _ Bodies.bodiesTable_nodup h1, lookup_of_mem_nodup _ _ _ Bodies.implTable_nodup h2,
    lookup_of_mem_nodup _ _ _ Bodies.bodiesShapes_nodup h3, h4⟩
 
@@ -185,12 +207,19 @@ theorem Bodies.agrees_intro {desc : String} {P : List Val → Prop} (g : Body) (
     plain numbers that the bodies make (`Bodies.numCalls`) with a number or raises.  Kernel `decide` over the generated
     registry (`Bodies.numCalls_table`) + the number bodies return numbers. -/
 theorem BODIES_numdisp_real (n : Nat) : NumDisp (fun nm as => dispatchV n nm as []) := numDisp_dispatchV n
+
+/-- **The stronger hypothesis used for `ka_sqrt` and `strict_pow` is true of Ka's dispatcher as well**: with at least one level
+    of nesting left, `dispatch` computes `<`, `==` and `int` on plain numbers as the registered implementations do (`NumSem`).
+    (The hand-written models of these two bodies compare directly instead of calling back into `dispatch`.) -/
+theorem BODIES_numsem_real (n : Nat) : NumSem (fun nm as => dispatchV (n + 1) nm as []) := numSem_dispatchV n
 ''')
 names = []
+SEMNAMES = set()
 SIDE = {}
 for ent in SPEC:
     desc, code, proof = ent[:3]
     side = ent[3] if len(ent) > 3 else None
+    hyp = ent[4] if len(ent) > 4 else None
     SIDE[desc] = side
     if desc not in BODIES:
         sys.exit("mkbodiesprops: %s is not in Gen/Bodies.bodiesTable" % desc)
@@ -202,7 +231,11 @@ for ent in SPEC:
     if tn in names:
         sys.exit("duplicate theorem name " + tn)
     names.append(tn)
-    if side is None:
+    if hyp == "NumSem":
+        SEMNAMES.add(tn)
+    if hyp is not None:
+        L.append("theorem %s : Bodies.AgreesUnder %s \"%s\"\n    (%s) := by" % (tn, hyp, desc, side or "fun _ => True"))
+    elif side is None:
         L.append("theorem %s : Bodies.Agrees \"%s\" := by" % (tn, desc))
     else:
         L.append("theorem %s : Bodies.AgreesOn \"%s\"\n    (%s) := by" % (tn, desc, side))
@@ -225,12 +258,12 @@ L.append("/-- the descriptors covered by the theorems above -/")
 L.append("def Bodies.covered : List String := [\n  " + ",\n  ".join('"%s"' % e[0] for e in SPEC) + "]\n")
 L.append("/-- **Summary.**  Every covered descriptor: translated body = hand-written body (see `Bodies.AgreesOn`; the side condition,\n"
          "    where there is one — a size bound of the model — is stated in the descriptor's own theorem). -/")
-L.append("theorem BODIES_table : ∀ d ∈ Bodies.covered, ∃ P, Bodies.AgreesOn d P := by")
+L.append("theorem BODIES_table : ∀ d ∈ Bodies.covered, ∃ H P, (H = NumDisp ∨ H = NumSem) ∧ Bodies.AgreesUnder H d P := by")
 L.append("  intro d hd")
 L.append("  simp only [Bodies.covered, List.mem_cons, List.mem_nil_iff, or_false] at hd")
 L.append("  rcases hd with " + " | ".join(["rfl"] * len(SPEC)))
 for tn in names:
-    L.append("  · exact ⟨_, %s⟩" % tn)
+    L.append("  · exact ⟨_, _, %s, %s⟩" % ("Or.inr rfl" if tn in SEMNAMES else "Or.inl rfl", tn))
 L.append("")
 TAIL = os.path.join(V, "tools", "bodiesprops_tail.lean")
 if os.path.exists(TAIL):
